@@ -530,6 +530,9 @@ func mayModify(n ast.Node, paths []string, ctx *typeCtx) bool {
 			}
 		case *ast.UnaryExpr:
 			if t.Op == token.AND {
+				if _, fresh := stripParens(t.X).(*ast.CompositeLit); fresh {
+					return true // `&T{…}` allocates a new value: nothing existing is exposed
+				}
 				hit = hit || related(t.X)
 			}
 		case *ast.CallExpr:
@@ -622,7 +625,24 @@ func inlineNewAliases(f *ast.File, fn *ast.FuncDecl, fresh []*ast.Object) {
 				}
 			}
 		}
+		// … or the init statement of an `if` / `switch` (its scope is that statement; the uses are inside)
+		var initOf ast.Stmt
 		if home == nil {
+			ast.Inspect(fn.Body, func(m ast.Node) bool {
+				switch t := m.(type) {
+				case *ast.IfStmt:
+					if t.Init == ast.Stmt(def) {
+						initOf = t
+					}
+				case *ast.SwitchStmt:
+					if t.Init == ast.Stmt(def) {
+						initOf = t
+					}
+				}
+				return initOf == nil
+			})
+		}
+		if home == nil && initOf == nil {
 			continue
 		}
 		// a parallel definition evaluates all right-hand sides first: the other left-hand sides must not be read by rhs
@@ -744,7 +764,14 @@ func inlineNewAliases(f *ast.File, fn *ast.FuncDecl, fresh []*ast.Object) {
 			return r
 		})
 		// drop the definition
-		if len(def.Lhs) == 1 {
+		if len(def.Lhs) == 1 && home == nil {
+			switch t := initOf.(type) {
+			case *ast.IfStmt:
+				t.Init = nil
+			case *ast.SwitchStmt:
+				t.Init = nil
+			}
+		} else if len(def.Lhs) == 1 {
 			*home = append((*home)[:hi:hi], (*home)[hi+1:]...)
 		} else {
 			def.Lhs = append(def.Lhs[:idx:idx], def.Lhs[idx+1:]...)
@@ -863,6 +890,35 @@ func normalizeStmts(f *ast.File, fn *ast.FuncDecl) {
 					}
 					(*list)[k] = as
 				}
+			case *ast.AssignStmt:
+				// x := T{} (T a struct type) and x := T(nil) (T a type) declare the zero value: read `var x T`
+				if t.Tok != token.DEFINE || len(t.Lhs) != 1 || len(t.Rhs) != 1 {
+					continue
+				}
+				id, ok := t.Lhs[0].(*ast.Ident)
+				if !ok || id.Name == "_" || id.Obj == nil || id.Obj.Decl != t {
+					continue
+				}
+				var ty ast.Expr
+				switch r := t.Rhs[0].(type) {
+				case *ast.CompositeLit:
+					if len(r.Elts) == 0 && r.Type != nil && knownStruct(r.Type) {
+						ty = r.Type
+					}
+				case *ast.CallExpr:
+					if len(r.Args) == 1 && !r.Ellipsis.IsValid() && isNilIdent(r.Args[0]) && isTypeExpr(r.Fun) {
+						ty = r.Fun
+						if p, ok := ty.(*ast.ParenExpr); ok {
+							ty = p.X
+						}
+					}
+				}
+				if ty == nil {
+					continue
+				}
+				vs := &ast.ValueSpec{Names: []*ast.Ident{id}, Type: ty}
+				id.Obj.Decl = vs
+				(*list)[k] = &ast.DeclStmt{Decl: &ast.GenDecl{TokPos: t.Pos(), Tok: token.VAR, Specs: []ast.Spec{vs}}}
 			case *ast.ForStmt:
 				if i, n, ok := countingLoop(t, "0", ctx); ok {
 					r := &ast.RangeStmt{For: t.For, Key: i, TokPos: i.End(), Tok: token.DEFINE, Range: n.Pos(), X: n, Body: t.Body}
@@ -894,4 +950,48 @@ func normalizeStmts(f *ast.File, fn *ast.FuncDecl) {
 			}
 		}
 	}
+}
+
+// knownStruct: the type expression denotes a struct type — one declared in this file, or a well-known struct of
+// the standard library.  (`T{}` is the zero value exactly for struct and array types; for a slice or map type it
+// is an empty non-nil value.)
+func knownStruct(ty ast.Expr) bool {
+	switch t := ty.(type) {
+	case *ast.Ident:
+		if t.Obj != nil && t.Obj.Kind == ast.Typ {
+			if ts, ok := t.Obj.Decl.(*ast.TypeSpec); ok {
+				_, isStruct := ts.Type.(*ast.StructType)
+				return isStruct
+			}
+		}
+	case *ast.SelectorExpr:
+		if p, ok := t.X.(*ast.Ident); ok && p.Obj == nil {
+			switch p.Name + "." + t.Sel.Name {
+			case "strings.Builder", "bytes.Buffer", "sync.Mutex", "sync.RWMutex", "sync.WaitGroup", "sync.Once", "time.Time":
+				return true
+			}
+		}
+	}
+	return false
+}
+
+func isNilIdent(e ast.Expr) bool {
+	id, ok := e.(*ast.Ident)
+	return ok && id.Name == "nil" && id.Obj == nil
+}
+
+// isTypeExpr: e is syntactically a type (so `e(nil)` is a conversion, the zero value of that type).
+func isTypeExpr(e ast.Expr) bool {
+	switch t := e.(type) {
+	case *ast.Ident:
+		return t.Obj != nil && t.Obj.Kind == ast.Typ
+	case *ast.ArrayType, *ast.MapType, *ast.FuncType, *ast.ChanType, *ast.InterfaceType:
+		return true
+	case *ast.ParenExpr:
+		if _, ptr := t.X.(*ast.StarExpr); ptr {
+			return true
+		}
+		return isTypeExpr(t.X)
+	}
+	return false
 }
